@@ -1,5 +1,5 @@
 //! C06 (print/scan) — TeX's print_scaled guarantee through the real Display code and core::fmt:
-//! every scaled value prints as a decimal with 1..5 fraction digits that scans back to the same value.
+//! every scaled value prints as exactly the decimal TeX.2021.103 prints (1..5 fraction digits) and scans back to the same value.
 use common::{Scaled, ScaledUnit};
 use std::fmt::Write;
 
@@ -53,6 +53,27 @@ fn print_then_scan(s: Scaled) -> (Scaled, usize) {
         i += 1;
     }
     assert!(nd >= 1 && nd <= 5, "TeX prints between one and five fraction digits");
+    // The digits are exactly the ones TeX.2021.103 (print_scaled) prints, not merely digits that scan back.
+    {
+        let a = if s.0 < 0 { -(s.0 as i64) } else { s.0 as i64 };
+        assert!(int_part as i64 == a / 65536, "integer part printed = |s| div 2^16");
+        let mut t: i64 = 10 * (a % 65536) + 5;
+        let mut delta: i64 = 10;
+        let mut k = 0;
+        loop {
+            if delta > 65536 {
+                t = t + 0o100000 - 50000;
+            }
+            assert!(k < nd && digits[k] as i64 == t / 65536, "fraction digit = TeX's print_scaled digit");
+            k += 1;
+            t = 10 * (t % 65536);
+            delta *= 10;
+            if t <= delta {
+                break;
+            }
+        }
+        assert!(k == nd, "as many fraction digits as TeX prints");
+    }
     let f = Scaled::from_decimal_digits(&digits[..nd]);
     let v = Scaled::new(int_part, f, ScaledUnit::Point).expect("a printed dimension scans without overflow");
     (if neg { -v } else { v }, nd)
